@@ -322,7 +322,7 @@ pub fn run(tier: Tier) -> Report {
         .enumerate()
         .flat_map_iter(|(i, it)| {
             let pr = print_program(&it.program);
-            let nvar = if it.family == "scenario-permutations" { 7 } else { 1 + (i % 3 == 0) as usize };
+            let nvar = if (it.family == "scenario-permutations" || progs::always_included(it.family)) { 7 } else { 1 + (i % 3 == 0) as usize };
             let vars = doc_variants(&pr, 6);
             let mut out = vec![];
             for k in 0..nvar {
